@@ -250,6 +250,16 @@ def classify(view: ProtoView, name: str, kind: str, val: dict, ty: dict, rt_by_n
         elif opname == "Normalizer" and kind == "dtype":
             if val["e"] == "f32" and ty["e"] in ("f64", "i64", "i32"):  # the input's element type was reported
                 cause = "output-is-float"
+        elif opname == "Slice" and kind.startswith("dim") and len(node.input) == 5 and node.input[4]:
+            # ONNX's Slice inference assumes steps = 1 when the `steps` input has NO shape information
+            # (rank-unknown, non-constant): the reported dim is the one a step of 1 gives
+            steps = node.input[4]
+            vi = {v.name: v for v in onnx.shape_inference.infer_shapes(view.m, data_prop=True).graph.value_info}
+            prod = view.prod.get(steps)
+            const = steps in {t.name for t in view.m.graph.initializer} or (prod is not None and prod.op_type == "Constant")
+            shapeless = steps not in vi or not vi[steps].type.tensor_type.HasField("shape")  # (ONNX's own view of the model)
+            if not const and shapeless:
+                cause = "steps-of-unknown-rank"
         elif opname == "Loop":
             n = len(node.input) - 2
             if 0 <= idx < n:
@@ -309,7 +319,22 @@ def _plain_standard_op(view: ProtoView, name: str) -> bool:
         return False
     if any(a.HasField("g") or len(a.graphs) for a in node.attribute):
         return False
-    return node.op_type not in ("Compress", "Loop", "If", "Scan")
+    if node.op_type in ("Compress", "Loop", "If", "Scan"):
+        return False
+    # ... and not computed from a control-flow result: the reference evaluator is no witness there (its
+    # Loop treats an omitted `cond` as false and returns the initial values)
+    seen, stack = set(), list(view.deps(node))
+    while stack:
+        x = stack.pop()
+        if x in seen:
+            continue
+        seen.add(x)
+        n = view.prod.get(x)
+        if n is not None:
+            if any(a.HasField("g") or len(a.graphs) for a in n.attribute):
+                return False
+            stack.extend(view.deps(n))
+    return True
 
 
 def adjudicate(view: ProtoView, feed: dict, exposed: list, fails: list[dict], st: dict) -> list[dict]:
@@ -1303,7 +1328,19 @@ def _w_loop_refined_dim():
     return args, [v]
 
 
+def _w_slice_steps_unknown_rank():
+    """Slice whose `steps` input is a rank-unknown, non-constant value (here: erased by a runtime
+    Reshape; in programs: a carried result of a v19+ Loop): ONNX infers the shape a step of 1 gives."""
+    import spox.opset.ai.onnx.v19 as op
+    args = make_args(dict(x=L.ty_from_json({"e": "f32", "s": [12, 12]}), st=L.ty_from_json({"e": "i64", "s": [1]}),
+                          shp=L.ty_from_json({"e": "i64", "s": ["K"]})))
+    c = lambda a: op.const(np.array(a, dtype=np.int64))  # noqa: E731
+    steps = op.reshape(args["st"], args["shp"])
+    return args, [op.slice(args["x"], c([0]), c([12]), c([0]), steps)]
+
+
 WITNESSES = {
+    "slice_steps_unknown_rank": _w_slice_steps_unknown_rank,
     "linear_regressor_targets": _w_linreg,
     "tree_ensemble_classifier_class_ids": _w_treecls,
     "normalizer_float64": _w_normalizer,
@@ -1320,6 +1357,9 @@ def run_witness(case: dict) -> dict:
     def fix_feed(feed):
         if "m" in feed:  # trip count input of a witness: zero iterations
             feed["m"] = np.array(0, dtype=np.int64)
+        if "st" in feed and "shp" in feed:  # the Slice witness: step 4, reshaped to its own shape
+            feed["st"] = np.array([4], dtype=np.int64)
+            feed["shp"] = np.array([1], dtype=np.int64)
         return feed
 
     return observe(args, outs, random.Random(0), [0, 1, 2, 5], 4, fix_feed=fix_feed)
